@@ -61,7 +61,7 @@ def run(ctx):
         n = 12 if tier == "quick" else 150
         cases = []
         for i in range(n):
-            pr = gen_program.generate(rng, run_.drv, rom="low_rom", features={"incbin": False})
+            pr = gen_program.generate(rng, run_.drv, rom="low_rom", features={"incbin": False, "usermap": False})
             lines = pr["src"].rstrip("\n").split("\n")
             cases.append((pr["src"], "none"))
             for j in range(6 if tier == "quick" else 8):
